@@ -40,21 +40,47 @@ fn read_host(s: &str) -> Host<String> {
     }
 }
 
-// sampling of the IdnaOK premise on the real crate (reported as a note, never as a mismatch)
+/// Rust twin of known_c10_long (coq/Proofs/C09_Long.v) = Known_C10_long (coq/Proofs/Idna_C10b_Long.v), finding
+/// F-C10-1: some dot-separated label starts with xn-- (any case of x and n) and has more than 2000
+/// (PUNYCODE_DECODE_MAX_INPUT_LENGTH) bytes after it.  ToASCII can return such a name (a label of at most 1000
+/// scalar values) and always rejects it; Host::parse then returns a Domain whose Display text it does not parse.
+fn known_c10_long(d: &str) -> bool {
+    d.split('.').any(|l| {
+        let b = l.as_bytes();
+        b.len() > 2004 && (b[0] | 0x20) == b'x' && (b[1] | 0x20) == b'n' && b[2] == b'-' && b[3] == b'-'
+    })
+}
+/// the F-C10-1 witness at host level: one label of the 1000 ideographs U+4E00 + 20*i
+fn long_host() -> String {
+    (0..1000u32).map(|i| char::from_u32(0x4E00 + 20 * i).unwrap()).collect()
+}
+
+// sampling of the IdnaOK2 premise (coq/Proofs/C09_Long.v) on the real crate (reported as a note, never as a
+// mismatch): every answer is lower-case ASCII outside the deny list, and - OUTSIDE the class Known_C10_long - a fixed
+// point of the oracle.  IdnaOK itself (fixed point on all answers) is false of the crate: F-C10-1.  Answers inside the
+// class are counted; that the crate rejects them (C10_long_rejected) is sampled too.
 static IDNA_ANSWERS: std::sync::atomic::AtomicU64 = std::sync::atomic::AtomicU64::new(0);
 static IDNA_NOT_OK: std::sync::atomic::AtomicU64 = std::sync::atomic::AtomicU64::new(0);
+static IDNA_IN_CLASS: std::sync::atomic::AtomicU64 = std::sync::atomic::AtomicU64::new(0);
 static IDNA_FIRST_BAD: std::sync::Mutex<Option<String>> = std::sync::Mutex::new(None);
 
 fn idna_ok_sample(out: &str) {
     use std::sync::atomic::Ordering::Relaxed;
     IDNA_ANSWERS.fetch_add(1, Relaxed);
     let chars_ok = out.chars().all(|c| c.is_ascii() && !c.is_ascii_uppercase() && !spec::forbidden_domain(c));
-    let fixed = idna::domain_to_ascii_cow(out.as_bytes(), idna::AsciiDenyList::URL).map(|c| c == out).unwrap_or(false);
+    let again = idna::domain_to_ascii_cow(out.as_bytes(), idna::AsciiDenyList::URL);
+    let in_class = known_c10_long(out);
+    if in_class {
+        IDNA_IN_CLASS.fetch_add(1, Relaxed);
+    }
+    // outside the class: a fixed point; inside: rejected
+    let fixed = if in_class { again.is_err() } else { again.map(|c| c == out).unwrap_or(false) };
     if !(chars_ok && fixed) {
         IDNA_NOT_OK.fetch_add(1, Relaxed);
         let mut g = IDNA_FIRST_BAD.lock().unwrap();
         if g.is_none() {
-            *g = Some(format!("{:?} (chars_ok={}, fixed_point={})", out, chars_ok, fixed));
+            let shown: String = out.chars().take(80).collect();
+            *g = Some(format!("{:?} (chars_ok={}, in_class={}, fixed_point_or_rejected={})", shown, chars_ok, in_class, fixed));
         }
     }
 }
@@ -516,6 +542,10 @@ fn run_corr(args: &Args) -> Report {
             compare(&mut drv, &mut rep, "corpus", l);
         }
     }
+    // F-C10-1 at host level: the model (oracle = the real idna crate) and the crate agree on the witness, both
+    // return a Domain whose Display text they refuse (signature rt!)
+    compare(&mut drv, &mut rep, "corpus", &format!("parse {}", hexs(&long_host())));
+    compare(&mut drv, &mut rep, "corpus", &format!("opaque {}", hexs(&long_host())));
     let mut notes = Vec::new();
     let mut k = 0u64;
     streams(&args.tier, args.seed, &mut notes, &mut |stream, req| {
@@ -555,15 +585,16 @@ fn run_corr(args: &Args) -> Report {
             }
         }
         rep.notes.push(format!(
-            "IdnaOK sampled on the real idna crate: {} oracle answers, {} not (lower-case ASCII outside the deny list and a fixed point){}; dotted-decimal clause: {} of 8 samples fail",
+            "IdnaOK2 sampled on the real idna crate: {} oracle answers ({} inside the class Known_C10_long of F-C10-1), {} not (lower-case ASCII outside the deny list and: a fixed point outside the class / rejected inside it){}; dotted-decimal clause: {} of 8 samples fail",
             IDNA_ANSWERS.load(Relaxed),
+            IDNA_IN_CLASS.load(Relaxed),
             IDNA_NOT_OK.load(Relaxed),
             IDNA_FIRST_BAD.lock().unwrap().as_ref().map(|s| format!(", first: {}", s)).unwrap_or_default(),
             v4_bad
         ));
     }
 
-    // IdnaOK / display round trip evaluated on the implementation for the fixed host premise pool (a mismatch,
+    // IdnaOK2 / display round trip evaluated on the implementation for the fixed host premise pool (a mismatch,
     // unlike the note above, because the pool does not depend on the seed): a domain that Host::parse returns is
     // lower-case ASCII without forbidden domain code points, and parsing its display text returns it again
     {
@@ -575,6 +606,9 @@ fn run_corr(args: &Args) -> Report {
                 let back = Host::parse(&d);
                 let verdict = if !chars_ok {
                     format!("domain {:?} has a non-ASCII, upper-case or forbidden domain code point", d)
+                } else if known_c10_long(&d) {
+                    // IdnaOK2: no fixed-point clause inside the class (F-C10-1); the class is always rejected
+                    if back.is_err() { "IdnaOK".to_string() } else { format!("display text in the class Known_C10_long parses to {:?}", back) }
                 } else if back != Ok(Host::Domain(d.clone())) {
                     format!("display text {:?} parses to {:?}", d, back)
                 } else {
@@ -929,8 +963,12 @@ fn property_of_request(req: &str) -> Option<String> {
                         if d != spec::ser_host(x) {
                             return Some(format!("{:?}: serializes as {:?}; the Standard's serializer gives {:?}", s, d, spec::ser_host(x)));
                         }
+                        // known class F-C10-1 (Known_C10_long): a Domain of Host::parse with a label xn-- + more than
+                        // 2000 bytes is not re-parsed; the search does not report it again
+                        let in_known_class = !opaque && matches!(h, Host::Domain(dm) if known_c10_long(dm));
                         match p(&d) {
                             Ok(h2) if &h2 == h => {}
+                            _ if in_known_class => {}
                             other => return Some(format!("{:?}: display {:?} re-parses to {:?}, not to {:?}", s, d, other, h)),
                         }
                         if let (Host::Domain(dm), false) = (h, opaque) {
@@ -1010,8 +1048,32 @@ fn run_search(args: &Args) -> Report {
 }
 
 fn run_known(_args: &Args) -> Report {
-    // no known finding is recorded for C09
-    Report::new()
+    let mut rep = Report::new();
+    // F-C10-1 at host level: Host::parse accepts a label of 1000 ideographs as a Domain of 2962 bytes (xn-- + 2958,
+    // inside Known_C10_long) and rejects the Display text of that Domain; the same through Url::parse
+    let r = guarded(|| {
+        let host = long_host();
+        match Host::parse(&host) {
+            Ok(Host::Domain(d)) => {
+                let back = Host::parse(&d);
+                let u = url::Url::parse(&format!("http://{}/", host));
+                let url_part = match &u {
+                    Ok(u) => format!(
+                        "Url::parse(http://<1000 ideographs>/) ok host_len={} reparse={:?} Host::parse(host_str)={:?}",
+                        u.host_str().map(|h| h.len()).unwrap_or(0),
+                        url::Url::parse(u.as_str()).map(|v| v.as_str().len()),
+                        u.host_str().map(|h| Host::parse(h).map(|_| ()))
+                    ),
+                    Err(e) => format!("Url::parse(http://<1000 ideographs>/) = Err({:?})", e),
+                };
+                format!("Host::parse(<1000 ideographs>) = Domain len={} in_class={} Host::parse(display)={:?}; {}", d.len(), known_c10_long(&d), back.map(|_| ()), url_part)
+            }
+            other => format!("Host::parse(<1000 ideographs>) = {:?}", other.map(|h| h.to_string().len())),
+        }
+    });
+    let expect = "Host::parse(<1000 ideographs>) = Domain len=2962 in_class=true Host::parse(display)=Err(IdnaError); Url::parse(http://<1000 ideographs>/) ok host_len=2962 reparse=Err(IdnaError) Host::parse(host_str)=Some(Err(IdnaError))";
+    rep.known.push(("F-C10-1".into(), r == expect, r));
+    rep
 }
 
 fn run_replay(args: &Args) -> Report {
